@@ -1781,6 +1781,8 @@ bn_clz(bn_p bn) {
 
 	if (NULL == bn)
 		return (0);
+	if (0 == bn->digits) /* No hi digit to look at. */
+		return ((BN_DIGIT_BITS * bn->count));
 	return (((BN_DIGIT_BITS * (bn->count - bn->digits)) +
 	    bn_digit_clz(bn->num[(bn->digits - 1)])));
 }
